@@ -1,8 +1,9 @@
 import Huginn.Drv.C14
+import Huginn.Drv.C16
 import Huginn.Drv.C17
 namespace Huginn.Drv
 
 def allHandlers : List (String × (String → P Verdict)) :=
-  Huginn.Drv.C14.handlers ++ Huginn.Drv.C17.handlers
+  Huginn.Drv.C14.handlers ++ Huginn.Drv.C16.handlers ++ Huginn.Drv.C17.handlers
 
 end Huginn.Drv
